@@ -714,12 +714,17 @@ func (r *c03Run) boxC(f *c03Fields, desc c03TBSDesc, sg c03Signer) {
 // ---------------------------------------------------------------------------------------------------------------
 // Box B
 
-func (r *c03Run) feedAll(b []byte, key32, key65 []byte, check bool, what func() map[string]any) int {
-	decs := [...]c03Decode{
-		c03DecodeStandard(Version1, b), c03DecodeStandard(Version2, b),
-		c03DecodeHandshake(Version1, b, key32, Curve_CURVE25519), c03DecodeHandshake(Version2, b, key32, Curve_CURVE25519),
-		c03DecodeHandshake(Version1, b, key65, Curve_P256), c03DecodeHandshake(Version2, b, key65, Curve_P256),
-		c03DecodeHandshake(VersionPre1, b, key32, Curve_CURVE25519), c03DecodeHandshake(3, b, key32, Curve_CURVE25519),
+// feedAll gives b to the decoder entry points: the two decoders of the PEM path and Recombine for both versions with a
+// Curve25519 key; with all=true also Recombine with a P-256 key and with the version bytes 0 and 3.
+func (r *c03Run) feedAll(b []byte, key32, key65 []byte, all, check bool, what func() map[string]any) int {
+	var arr [8]c03Decode
+	arr[0], arr[1] = c03DecodeStandard(Version1, b), c03DecodeStandard(Version2, b)
+	arr[2], arr[3] = c03DecodeHandshake(Version1, b, key32, Curve_CURVE25519), c03DecodeHandshake(Version2, b, key32, Curve_CURVE25519)
+	decs := arr[:4]
+	if all {
+		arr[4], arr[5] = c03DecodeHandshake(Version1, b, key65, Curve_P256), c03DecodeHandshake(Version2, b, key65, Curve_P256)
+		arr[6], arr[7] = c03DecodeHandshake(VersionPre1, b, key32, Curve_CURVE25519), c03DecodeHandshake(3, b, key32, Curve_CURVE25519)
+		decs = arr[:8]
 	}
 	for i := range decs {
 		d := &decs[i]
@@ -850,6 +855,7 @@ func TestVerifC03(t *testing.T) {
 	c.Set("alphabet_sizes", map[string]int{"versions": 2, "curves": 2, "names": len(names), "groups": len(groups), "networks": len(nets), "unsafe_networks": len(unsafe),
 		"is_ca": 2, "validities": len(vals), "key_lengths": len(klens)})
 
+	c.Set("seconds_box_A_and_C", c.Elapsed())
 	// ---- Box B1: every byte string of length <= 3 -------------------------------------------------------------------
 	key32, key65 := c03Key(32), c03Key(65)
 	maxLen := 3
@@ -872,7 +878,7 @@ func TestVerifC03(t *testing.T) {
 				}
 				feed := func(b []byte) {
 					bb := b
-					n := r.feedAll(b, key32, key65, false, func() map[string]any { return map[string]any{"input_hex": hex.EncodeToString(bb)} })
+					n := r.feedAll(b, key32, key65, th, false, func() map[string]any { return map[string]any{"input_hex": hex.EncodeToString(bb)} })
 					r.shortStrings.Add(1)
 					r.shortCalls.Add(int64(n))
 				}
@@ -896,6 +902,7 @@ func TestVerifC03(t *testing.T) {
 	}
 	wg.Wait()
 
+	c.Set("seconds_until_box_B1_done", c.Elapsed())
 	// ---- Box B2: every edit-distance-1 mutant of the seed encodings --------------------------------------------------
 	seeds := r.seeds()
 	type job struct{ s, pos int }
@@ -923,7 +930,7 @@ func TestVerifC03(t *testing.T) {
 				pos := jobs[j].pos
 				c03ByteEdits(s.raw, pos, func(kind string, v int, m []byte) {
 					mm := append([]byte(nil), m...) // decoded certificates may alias their input
-					n := r.feedAll(mm, key32, key65, true, func() map[string]any {
+					n := r.feedAll(mm, key32, key65, true, true, func() map[string]any {
 						return map[string]any{"seed": s.label, "mutation": fmt.Sprintf("%s pos=%d val=%d", kind, pos, v), "input_hex": hex.EncodeToString(mm)}
 					})
 					r.mutants.Add(1)
